@@ -4,7 +4,7 @@ are compared with the Lean model `poolQueryA` through the captured `simple_batch
 implementation output is judged by the property oracle and by the proved-equivalent Lean decider."""
 from . import _pool
 
-LEAN_TARGETS = ["SkaModel.Props.C01", "SkaModel.Gen.Skeleton", "SkaModel.Props.C01seq"]
+LEAN_TARGETS = ["SkaModel.Props.C01", "SkaModel.Gen.Skeleton", "SkaModel.Props.C01seq", "SkaModel.Props.C01choice"]
 LEVEL = "proof"
 RULE = (
     "cases: real query() calls of every strategy configuration in harness/catalog.py (all classes exported by skactiveml.pool "
